@@ -35,6 +35,8 @@ package bcrypt_pbkdf
 //@ loop 4 invariant forall(k, 0, rangeindex + 1, key[k * numBlocks + (block - 1)] == out[k])
 //@ check_at "out := make([]byte, blockSize)" ghost(h, hlen) == len(salt) + 4 && forall(q, 0, len(salt), ghost(h, hbuf)[q] == salt[q])
 //@ check_at "out := make([]byte, blockSize)" ghost(h, hbuf)[len(salt)] == (block / 16777216) % 256 && ghost(h, hbuf)[len(salt) + 1] == (block / 65536) % 256 && ghost(h, hbuf)[len(salt) + 2] == (block / 256) % 256 && ghost(h, hbuf)[len(salt) + 3] == block % 256
+// the password hash handed to every bcryptHash covers the whole password
+//@ check_at "shasalt := make([]byte, 0, sha512.Size)" ghost(h, hlen) == len(entry(password)) && forall(q, 0, len(entry(password)), ghost(h, hbuf)[q] == old(entry(password)[q]))
 //@ mark PREV "h.Write(tmp)"
 //@ check_at "for j := 0; j < len(out); j++ {" ghost(h, hlen) == 32 && forall(q, 0, 32, ghost(h, hbuf)[q] == at(PREV, tmp[q]))
 //@ canary ensures result1 != nil
